@@ -266,3 +266,26 @@ func VerifHarness_C19_IdsOfEveryLength() {
 	verifrt.Assert((errS == nil) == want, "the-typed-form-accepts-the-same-ids")
 	verifrt.Reach("end")
 }
+
+// C19: parsing is a function of the string: what LiteralInfoFromURI / LiteralInfoOf report for a URI does not depend
+// on which references were parsed before in the process - in particular a URN or canonical URL, whose literal has no
+// type of its own and takes the explicit Reference.type of the reference it was found in.
+func VerifHarness_C19_ParsingHasNoMemory() {
+	uri := []string{"urn:uuid:5a17", "http://x.org/Q", "Patient/1"}[verifrt.Choose("uri", 3)]
+	first := verifTypes[verifrt.Choose("firstType", 2)]
+	second := verifTypes[2+verifrt.Choose("secondType", 2)]
+	bare0, err0 := LiteralInfoFromURI(uri)
+	_, hadType := bare0.Type()
+	_, errA := LiteralInfoOf(&dtpb.Reference{Type: &dtpb.Uri{Value: first}, Reference: &dtpb.Reference_Uri{Uri: &dtpb.String{Value: uri}}})
+	bare1, err1 := LiteralInfoFromURI(uri)
+	verifrt.Assert((err0 == nil) == (err1 == nil), "the-same-string-parses-the-same-way-again")
+	if err0 == nil && err1 == nil {
+		_, hasType := bare1.Type()
+		verifrt.Assert(hasType == hadType, "an-earlier-typed-reference-leaves-no-type-behind")
+	}
+	_, errB := LiteralInfoOf(&dtpb.Reference{Type: &dtpb.Uri{Value: second}, Reference: &dtpb.Reference_Uri{Uri: &dtpb.String{Value: uri}}})
+	if uri != "Patient/1" {
+		verifrt.Assert(errA == nil && errB == nil, "a-typeless-uri-takes-any-explicit-type")
+	}
+	verifrt.Reach("end")
+}
